@@ -195,6 +195,16 @@ def assigned_names(stmts):
     return names, stores
 
 
+def _trivial_side(stmts):
+    for s in stmts:
+        if isinstance(s, (ast.Raise, ast.Pass)):
+            continue
+        if isinstance(s, ast.If) and _trivial_side(s.body) and _trivial_side(s.orelse):
+            continue
+        return False
+    return True
+
+
 class Ret:
     def __init__(self, value):
         self.value = value
@@ -231,6 +241,8 @@ class FunctionVerifier:
         self.used_anchors = set()
         self.computing = False
         self.skolems = []
+        self.branches = {}
+        self.if_ids = {}
 
     # ------------------------------------------------------------------ utilities
     def fresh(self, name, sort):
@@ -603,9 +615,10 @@ class FunctionVerifier:
             fa, fb = self.to_float(a), self.to_float(b)
             if prog:
                 self.float_defined(st, z3.And(z3.Not(fa.nan), z3.Not(fb.nan)), node, prog)
-            lt = z3.And(z3.Not(fb.ninf), z3.Or(fa.ninf, fa.v < fb.v))
-            eq = z3.Or(z3.And(fa.ninf, fb.ninf), z3.And(z3.Not(fa.ninf), z3.Not(fb.ninf), fa.v == fb.v))
-            gt = z3.And(z3.Not(fa.ninf), z3.Or(fb.ninf, fa.v > fb.v))
+            nn = z3.And(z3.Not(fa.nan), z3.Not(fb.nan))  # any comparison with NaN is False
+            lt = z3.And(nn, z3.Not(fb.ninf), z3.Or(fa.ninf, fa.v < fb.v))
+            eq = z3.And(nn, z3.Or(z3.And(fa.ninf, fb.ninf), z3.And(z3.Not(fa.ninf), z3.Not(fb.ninf), fa.v == fb.v)))
+            gt = z3.And(nn, z3.Not(fa.ninf), z3.Or(fb.ninf, fa.v > fb.v))
             table = {
                 ast.Lt: lambda: lt,
                 ast.LtE: lambda: z3.Or(lt, eq),
@@ -1072,14 +1085,28 @@ class FunctionVerifier:
         out = []
         s_t = st.fork()
         s_t.assumes.append(c) if not s_t.guards else s_t.assume(c)
+        key = None
+        if prog and not self.dry and not self.is_lemma:
+            key = "if " + ast.unparse(node.test)[:60] + " @%d" % self.if_ordinal(node)
+            # a side that only raises / passes (defensive code) may be dead under the contract
+            self.branches.setdefault(key, [_trivial_side(node.body), bool(node.orelse) and _trivial_side(node.orelse)])
         if self.feasible(st, c):
+            if key:
+                self.branches[key][0] = True
             out.extend(self.exec_block(node.body, s_t))
         s_f = st
         nc = z3.Not(c)
         if self.feasible(st, nc):
+            if key:
+                self.branches[key][1] = True
             s_f.assume(nc)
             out.extend(self.exec_block(node.orelse, s_f) if node.orelse else [(s_f, FALL)])
         return out
+
+    def if_ordinal(self, node):
+        if id(node) not in self.if_ids:
+            self.if_ids[id(node)] = len(self.if_ids)
+        return self.if_ids[id(node)]
 
     # -------- loops
     def loop_ordinal(self, node):
@@ -1453,6 +1480,10 @@ class FunctionVerifier:
             nloops = self.number_loops(body)
             self.number_call_sites(body)
             self.number_stmts(body)
+            ifs = [n for stn in body for n in ast.walk(stn) if isinstance(n, ast.If)]
+            ifs.sort(key=lambda n: (n.lineno, n.col_offset))
+            for k_, n_ in enumerate(ifs):
+                self.if_ids[id(n_)] = k_
             for k in cd.loops:
                 if k >= nloops:
                     raise VerifError("contract of %s names loop %d but the function has %d loops" % (cd.qualname, k, nloops))
